@@ -512,7 +512,7 @@ func Scalars() (out []Value) {
 		new(big.Int).Sub(new(big.Int).Lsh(big.NewInt(1), 1024), big.NewInt(1))}
 	for i, b := range bigs {
 		b := b
-		out = append(out, val("perunio.BigInt", fmt.Sprintf("%dbit", b.BitLen()), i == 4, func() *perunio.BigInt { return &perunio.BigInt{Int: new(big.Int).Set(b)} }))
+		out = append(out, val("perunio.BigInt", fmt.Sprintf("%d/%dbit", i, b.BitLen()), i == 4, func() *perunio.BigInt { return &perunio.BigInt{Int: new(big.Int).Set(b)} }))
 	}
 	for _, n := range []int{0, 1, 255, 256, math.MaxUint16} {
 		n := n
